@@ -48,6 +48,19 @@ def load_mts():
     return mts
 
 
+def load_hdr_tokens():
+    """token and payload tables of the header generator, read from spec/DataUriHdrGen.tla"""
+    txt = open(os.path.join(vlib.SPEC, 'DataUriHdrGen.tla')).read()
+
+    def block(name, until):
+        b = txt[txt.index(name + ' == <<') + len(name) + 6:]
+        b = b[:b.index('\n' + until)]
+        return [bytes(int(x) for x in m.group(1).split(',') if x.strip()) for m in re.finditer(r'<<([0-9, ]*)>>', b)]
+    tok, pls = block('Tok', 'Payloads'), block('Payloads', 'Header')
+    assert len(tok) >= 8 and len(pls) >= 3, (tok, pls)
+    return tok, pls
+
+
 def pct_min(p):
     return b''.join(bytes([c]) if c in URIC_LIT else b'%%%02X' % c for c in p)
 
@@ -183,6 +196,10 @@ REAL_PAYLOADS = {
 }
 
 
+# VERIF_C18_INCLUDE=K1,K2,... generates the named known constructs anyway (used to validate proposed fixes in a worktree)
+INCLUDE_KNOWN = set(x.strip()[:2] for x in os.environ.get('VERIF_C18_INCLUDE', '').split(',') if x.strip())
+
+
 class Cases:
     """collects cases in batches; dedup is per family (small sets), excluded constructs are counted"""
 
@@ -206,6 +223,8 @@ class Cases:
             return
         self.seen.add(k)
         why = excluded_datauri(data, regs) if fn == 'DataURI' else excluded_mediatype(data)
+        if why and why[:2] in INCLUDE_KNOWN:
+            why = None          # development switch: generate the construct anyway (to validate a proposed fix)
         if why:
             self.excluded[why] = self.excluded.get(why, 0) + 1
             return
@@ -350,6 +369,30 @@ def make_cases(ctx, cs, lap):
             raise vlib.Infra('python and TLA+ disagree on the known construct for %r' % sx)
     lap('generators dumped (%d URIs, %d media type strings)' % (len(states), len(mstrings)))
 
+    # header syntax space: token sequences between "data:" and the comma (DataUriHdrGen: D => A, then the real code)
+    hdump = ctx.path('gen', 'hdr')
+    r = vlib.tlc_mc(ctx, 'DataUriHdrGen', 'DataUriHdrGen_quick.cfg' if quick else 'DataUriHdrGen_thorough.cfg',
+                    workers=W, heap='6g', dump=hdump, timeout=3000)
+    txt = open(hdump + '.dump').read()
+    os.remove(hdump + '.dump')
+    hs = re.findall(r'^/\\ hdr = (<<[^>]*>>)', txt, re.M)
+    ps = re.findall(r'^/\\ pl = (\d+)', txt, re.M)
+    del txt
+    if not (len(hs) == len(ps) == r['distinct']):
+        raise vlib.Infra('dump of DataUriHdrGen has %d/%d states, TLC reported %d' % (len(hs), len(ps), r['distinct']))
+    ctx.coverage['header_uris_enumerated'] = len(hs)
+    tok, pls = load_hdr_tokens()
+    cs.family()
+    for h, p in zip(hs, ps):
+        u = b'data:' + b''.join(tok[t - 1] for t in vlib.tla_seq_to_list(' '.join(h.split()))) + b',' + pls[int(p) - 1]
+        cs.add('DataURI', 'direct', u)
+        if rnd.random() < 0.25 and low_type(u) in ('text/x', 'text/plain'):
+            cs.add('DataURI', 'direct', u, STUBS_FOR[low_type(u)][rnd.randrange(2)])
+        if rnd.random() < 0.05:
+            embed(cs, u, [], rnd)
+    del hs, ps
+    lap('header generator done')
+
     # ---- data URIs: exhaustive set, raw and validly encoded spelling, no minifier registered
     cs.family()
     for (mt, enc, pay) in states:
@@ -490,7 +533,7 @@ KEEP = ('fn', 'in', 'out', 'regs', 'calls', 'hasref', 'refpay', 'panic')
 
 
 def project(line):
-    e = json.loads(line)
+    e = json.loads(line) if isinstance(line, str) else line
     return json.dumps({k: e[k] for k in KEEP}, separators=(',', ':'))
 
 
@@ -524,6 +567,60 @@ def validate_alone(ctx, exe, cases, tag):
         lines += run_cases(ctx, exe, [dict(c, id=0)], '%s-alone%d' % (tag, n))
     why, _ = tv(ctx, lines)
     return lines, why
+
+
+def selftest(ctx):
+    """binding self-test of the relation itself: hand-made lines with one corrupted field each must be rejected by
+    the clause they break, clean controls must be accepted (otherwise the machinery is broken: exit 2)"""
+    def line(fn, i, o, regs=(), calls=(), hasref=False, refpay=b'', panic=False):
+        return dict(fn=fn, out=B(o), regs=[B(r) for r in regs], calls=[dict(c, **{'in': B(c['in']), 'out': B(c['out'])}) for c in calls],
+                    hasref=hasref, refpay=B(refpay), panic=panic, **{'in': B(i)})
+
+    def call(i, o, err=False):
+        return {'in': i, 'out': o, 'err': err}
+    T = [
+        (line('DataURI', 'data:,a%20b', 'data:,a%20c'), 'payload changed'),
+        (line('DataURI', 'data:text/css,a', 'data:text/cs,a'), 'media type changed'),
+        (line('DataURI', 'data:;charset=utf-8,a', 'data:,a'), 'media type changed'),
+        (line('DataURI', 'data:,%23%23%23%23%23%23', 'data:,%23%23%23%23%23%23'), 'not the shorter encoding'),
+        (line('DataURI', 'data:;base64,IyMjIyMj', 'data:,%23%23%23%23%23%23'), 'not the shorter encoding'),
+        (line('DataURI', 'data:,a&b', 'data:,a%26b'), 'longer than a validly encoded input'),
+        (line('DataURI', 'datx:x', 'datx:y'), 'not a data URI but changed'),
+        (line('DataURI', 'data:;base64,a', 'data:,x'), 'undecodable payload but changed'),
+        (line('DataURI', 'data:,a', 'xdata:,a'), 'result is not a data URI'),
+        (line('DataURI', 'data:,a', 'data:;base64,YQ='), 'result payload is not validly encoded'),
+        (line('DataURI', 'data:text/x,a', 'data:text/x,a', regs=['text/x']), 'registered minifier not called'),
+        (line('DataURI', 'data:text/x,a', 'data:text/x,a', calls=[call('a', 'a')]), 'minifier called for unregistered type'),
+        (line('DataURI', 'data:text/x,a', 'data:text/x,a', regs=['text/x'], calls=[call('b', 'a')]), 'minifier got other than decoded payload'),
+        (line('DataURI', 'data:text/x,a', 'data:text/x,a', regs=['text/x'], calls=[call('a', 'a'), call('a', 'a')]), 'minifier called more than once'),
+        (line('DataURI', 'data:text/x,aa', 'data:text/x,aa', regs=['text/x'], calls=[call('aa', 'a')]), 'payload changed'),
+        (line('DataURI', 'data:,a', 'data:,a', hasref=True, refpay='b'), 'ORACLE'),
+        (line('DataURI', 'data:,a', '', panic=True), 'panic'),
+        (line('Mediatype', 'A "B"', 'a "B"'), 'blanks/upper case left outside strings'),
+        (line('Mediatype', 'A "B"', 'a"b"'), 'altered beyond case/blanks outside strings'),
+        (line('Mediatype', 'A "B c"', 'a"Bc"'), 'altered beyond case/blanks outside strings'),
+        (line('Mediatype', 'a', 'ab'), 'altered beyond case/blanks outside strings'),
+        # controls
+        (line('DataURI', 'data:,a+b', 'data:,a+b', hasref=True, refpay='a+b'), None),
+        (line('DataURI', 'data:,a%2Bb', 'data:,a+b'), None),
+        (line('DataURI', 'data:TEXT/plain; charset=US-ASCII ;base64,YQ==', 'data:,a'), None),
+        (line('DataURI', 'data:text/x,a', 'data:text/x,a', regs=['text/x'], calls=[call('a', 'a' + 'g' * 64)]), None),
+        (line('DataURI', 'data:text/x,a', 'data:text/x,a', regs=['text/x'], calls=[call('a', 'zz', err=True)]), None),
+        (line('DataURI', 'data:Text/X,aa', 'data:Text/X,a', regs=['text/x'], calls=[call('aa', 'a')]), None),
+        (line('DataURI', 'data:;base64,YQ', 'data:;base64,YQ'), None),
+        (line('DataURI', 'data:;base64,YQ', 'data:,a'), None),
+        (line('DataURI', 'data:,%zz', 'data:,%25zz'), None),
+        (line('Mediatype', 'A "B c" ;D', 'a"B c";d'), None),
+        (line('Mediatype', 'A "B\\" C" D', 'a"B\\" C"d'), None),
+        (line('Mediatype', 'A "B C', 'a"b C'), None),
+    ]
+    why, _ = tv(ctx, [json.dumps(t[0], separators=(',', ':')) for t in T])
+    for i, (l, want) in enumerate(T):
+        got = why.get(i, [])
+        if (want is None and got) or (want is not None and want not in got):
+            raise vlib.Infra('relation self-test failed on %r -> %r: expected %s, TLC said %s'
+                             % (S(l['in']), S(l['out']), want or 'accepted', got or 'accepted'))
+    return len(T)
 
 
 class Stats:
@@ -591,6 +688,8 @@ def run(ctx):
     def lap(what):
         vlib.log('[c18] %6.1fs %s' % (time.time() - t0, what))
     exe = vlib.build_harness(ctx, 'c18')
+    ctx.coverage['relation_selftest_lines'] = selftest(ctx)
+    lap('relation self-test passed')
     st = Stats()
     nbatch = [0]
 
@@ -622,17 +721,19 @@ def run(ctx):
              'growing stub; literal, text/plain and pattern registrations); real css/json/svg minifiers on a list of documents '
              'in 4 spellings x all media type spellings; every byte value 0..255 in 4 payload shapes x 4 spellings; TLC -simulate '
              'walks over all byte values up to 48 bytes; malformed forms; the repository test inputs; a seeded sample again '
-             'through CSS url() and HTML src=. Mediatype: every string of <= %s bytes over {A,a,space,",;,=,/,\\} (TLC dump of '
+             'through CSS url() and HTML src=; every header of <= %d tokens over {text/plain,text/x,;,=,blank,base64,charset,us-ascii,A,"} '
+             'x 4 payload texts (TLC dump of DataUriHdrGen). Mediatype: every string of <= %s bytes over {A,a,space,",;,=,/,\\} (TLC dump of '
              'MediatypeGen), -simulate walks to 48 bytes, seeded strings of 6..14 bytes, strings around the 1024 byte mark, and '
              'a sample through the HTML type attribute. A case is (fn, channel, input bytes, registrations); non-trivial = the '
              'helper returned bytes different from its input or a registered minifier ran. Excluded from generation (narrow '
              'constructs of pinned known findings, decided on the input only): %s'
-             % (3 if q else 4, 20 if q else 40, '5' if q else '6 (and a seeded 30% of length 7)',
+             % (3 if q else 4, 20 if q else 40, 3 if q else 5, '5' if q else '6 (and a seeded 30% of length 7)',
                 '; '.join('%s (%d inputs)' % kv for kv in sorted(cs.excluded.items())) or 'none'),
         samples=st.samples or [dict(note='no sampled line changed')],
         exhaustive=True,
-        exhaustive_bound='all generator states: payload <= %d bytes over 11 symbols x 14 media types x 2 encodings; all media type '
-                         'strings <= %d bytes over 8 symbols' % (3 if q else 4, 5 if q else 6),
+        exhaustive_bound='all generator states: payload <= %d bytes over 11 symbols x 14 media types x 2 encodings; all headers of <= %d '
+                         'tokens over 10 tokens x 4 payloads; all media type strings <= %d bytes over 8 symbols'
+                         % (3 if q else 4, 3 if q else 5, 5 if q else 6),
         cases_per_channel=st.per,
         branch_hits=st.branch,
         payload_byte_values_covered=len(st.bytevals),
